@@ -12,6 +12,9 @@ package main
 //     shards, non-candidate identities in between, production shortFlipsCount).  In both the key-package side is the
 //     real PrivateEncryptionKeyCandidates / getPrivateKeyPackageIndex / EncryptPrivateKeysPackage / GetFlipKeys /
 //     getEncryptedKeyFromPackage / ECIES decrypt.
+//     "seq" = 2-3 consecutive ceremonies on ONE running node (one KeysPool / Flipper / ValidationCeremony, real completeEpoch
+//     -> KeysPool.Clear between them, signed key messages through the pool's real validation, every (candidate, author)
+//     pair fetched in every epoch, compared with a pool constructed at that moment = a restarted node).
 //   - independent oracle (this file): the predicates of the property evaluated directly on what the code returned.
 
 import (
@@ -33,11 +36,14 @@ import (
 	"github.com/idena-network/idena-go/config"
 	"github.com/idena-network/idena-go/core/appstate"
 	"github.com/idena-network/idena-go/core/ceremony"
+	"github.com/idena-network/idena-go/core/flip"
 	"github.com/idena-network/idena-go/core/mempool"
 	"github.com/idena-network/idena-go/core/state"
 	"github.com/idena-network/idena-go/crypto"
 	"github.com/idena-network/idena-go/crypto/ecies"
 	"github.com/idena-network/idena-go/database"
+	"github.com/idena-network/idena-go/events"
+	"github.com/idena-network/idena-go/ipfs"
 	"github.com/idena-network/idena-go/secstore"
 	dbm "github.com/tendermint/tm-db"
 
@@ -51,11 +57,24 @@ type c16id struct {
 }
 
 type c16case struct {
-	Level string  `json:"level"` // fn | cer
-	Q     int     `json:"q"`     // shortFlipsCount (cer: the production constant)
-	Seed  uint64  `json:"seed"`  // first 8 bytes (little endian) of the lottery seed
-	KSeed int64   `json:"kseed"` // sampling of (candidate, author) pairs for the key-package part
-	Ids   []c16id `json:"ids"`
+	Level  string     `json:"level"` // fn | cer | seq
+	Q      int        `json:"q"`     // shortFlipsCount (cer, seq: the production constant)
+	Seed   uint64     `json:"seed"`  // first 8 bytes (little endian) of the lottery seed
+	KSeed  int64      `json:"kseed"` // sampling of (candidate, author) pairs for the key-package part
+	Ids    []c16id    `json:"ids,omitempty"`
+	Epochs []c16epoch `json:"epochs,omitempty"` // seq: consecutive validation ceremonies on ONE running node
+}
+
+// one ceremony of a multi-epoch sequence: who takes part (in lottery-identity order, so positions change between
+// epochs), how many flips each submitted this epoch, and the lottery seed
+type c16epoch struct {
+	Seed uint64   `json:"seed"`
+	Ids  []c16pid `json:"ids"`
+}
+
+type c16pid struct {
+	G int `json:"g"` // identity (same key and address in every epoch)
+	F int `json:"f"` // flips submitted in this epoch
 }
 
 const c16prodQ = int(common.ShortSessionFlips + common.ShortSessionExtraFlips)
@@ -287,6 +306,9 @@ func c16run(cs c16case) *c16out { return c16runK(cs, true) }
 
 // c16runK: withKeys=false skips the (expensive) real encryption / decryption sampling
 func c16runK(cs c16case, withKeys bool) *c16out {
+	if cs.Level == "seq" {
+		return c16runSeq(cs, withKeys)
+	}
 	fx := c16getFixture()
 	o := &c16out{}
 	shards := c16shardsOf(cs)
@@ -376,389 +398,595 @@ func c16runK(cs c16case, withKeys bool) *c16out {
 	krng := rand.New(rand.NewSource(cs.KSeed))
 	orng := rand.New(rand.NewSource(cs.KSeed + 1)) // oracle-only sampling (never influences the op lines)
 	for s, in := range shards {
-		n := len(in.fl)
-		m, total := 0, 0
-		var flipAuthor []int // candidate index (in the shard) of each global flip index
-		for i, k := range in.fl {
-			if k > 0 {
-				m++
-			}
-			total += k
-			for j := 0; j < k; j++ {
-				flipAuthor = append(flipAuthor, i)
+		c16shard(o, &c16shardCtx{in: in, q: q, seed: cs.Seed, sh: b1.sh[s], sh2: b2.sh[s], stage: b1.stage[s], stage2: b2.stage[s],
+			what: b1.what, f: b1.f, krng: krng, orng: orng, withKeys: withKeys})
+	}
+	return o
+}
+
+// c16shardCtx: one shard of one lottery (one epoch) as the real code built it, plus how keys get published
+type c16shardCtx struct {
+	in            c16shardIn
+	q             int
+	seed          uint64
+	sh, sh2       *ceremony.VerifC16Shard // sh2: second run for determinism
+	stage, stage2 int                     // function level: stage at which the real code panicked (0 none, 1 authors, 2 flips)
+	what          string
+	f             *ceremony.VerifC16Ceremony
+	krng, orng    *rand.Rand
+	withKeys      bool
+	epoch         int // position in a multi-epoch sequence (0 otherwise)
+	seq           *c16world
+	cidEpoch      int // flips of epoch e are numbered from 8*e (fresh cids every epoch)
+}
+
+func c16shard(o *c16out, x *c16shardCtx) {
+	fx := c16getFixture()
+	in, q := x.in, x.q
+	n := len(in.fl)
+	m, total := 0, 0
+	var flipAuthor []int // candidate index (in the shard) of each global flip index
+	for i, k := range in.fl {
+		if k > 0 {
+			m++
+		}
+		total += k
+		for j := 0; j < k; j++ {
+			flipAuthor = append(flipAuthor, i)
+		}
+	}
+	op := fmt.Sprintf("new %d %s", q, c16flToken(in.fl))
+	sh := x.sh
+	if sh == nil {
+		o.line(op, "panic")
+		o.fail("C16:panic", "the lottery panicked building shard %d: %s", in.sid, x.what)
+		return
+	}
+	nAuth := 0
+	for _, a := range sh.IsAuthor {
+		if a {
+			nAuth++
+		}
+	}
+	o.line(op, fmt.Sprintf("ok n=%d authors=%d flips=%d", len(sh.Candidates), nAuth, len(sh.Flips)))
+	// the shard must be laid out as the case says (candidate order, flip order)
+	layoutOK := len(sh.Candidates) == n && len(sh.Flips) == total
+	if layoutOK {
+		for i, g := range in.gidx {
+			if sh.Candidates[i] != fx.addr(g) {
+				layoutOK = false
 			}
 		}
-		op := fmt.Sprintf("new %d %s", q, c16flToken(in.fl))
-		sh := b1.sh[s]
-		if sh == nil {
-			o.line(op, "panic")
-			o.fail("C16:panic", "the lottery panicked building shard %d: %s", in.sid, b1.what)
-			continue
-		}
-		nAuth := 0
-		for _, a := range sh.IsAuthor {
-			if a {
-				nAuth++
-			}
-		}
-		o.line(op, fmt.Sprintf("ok n=%d authors=%d flips=%d", len(sh.Candidates), nAuth, len(sh.Flips)))
-		// the shard must be laid out as the case says (candidate order, flip order)
-		layoutOK := len(sh.Candidates) == n && len(sh.Flips) == total
-		if layoutOK {
-			for i, g := range in.gidx {
-				if sh.Candidates[i] != fx.addr(g) {
+		f := 0
+		for i, g := range in.gidx {
+			for j := 0; j < in.fl[i]; j++ {
+				if !bytes.Equal(sh.Flips[f], c16cid(g, j+8*x.cidEpoch)) {
 					layoutOK = false
 				}
+				f++
 			}
-			f := 0
-			for i, g := range in.gidx {
-				for j := 0; j < in.fl[i]; j++ {
-					if !bytes.Equal(sh.Flips[f], c16cid(g, j)) {
-						layoutOK = false
-					}
-					f++
+		}
+	}
+	if !layoutOK {
+		o.fail("C16:shard-layout", "shard %d: candidates/flips not laid out in identity order", in.sid)
+		return
+	}
+	p1, p2, p3 := c16p1(x.seed, n, m, q), c16p2(x.seed, n, m), c16p3(x.seed, n)
+	opA := "authors " + c16LL(p1, ";") + " " + c16LL(p2, ";")
+	if x.stage == 1 {
+		o.line(opA, "panic")
+		o.fail("C16:panic", "GetAuthorsDistribution panicked: %s", x.what)
+		return
+	}
+	o.line(opA, "apc "+c16map(sh.Apc, n)+" cpa "+c16map(sh.Cpa, n))
+	opF := "flips " + c16flToken(p3)
+	if x.stage == 2 {
+		o.line(opF, "panic")
+		o.fail("C16:panic", "GetFlipsDistribution panicked: %s", x.what)
+		return
+	}
+	o.line(opF, "short "+c16LL(sh.Short, "|")+" long "+c16LL(sh.Long, "|"))
+
+	// ---- determinism
+	if s2 := x.sh2; s2 == nil || x.stage2 != 0 || !reflect.DeepEqual(sh.Apc, s2.Apc) || !reflect.DeepEqual(sh.Cpa, s2.Cpa) ||
+		!reflect.DeepEqual(sh.Short, s2.Short) || !reflect.DeepEqual(sh.Long, s2.Long) {
+		o.fail("C16:nondeterministic", "two runs on the same candidates, flips and seed differ (shard %d)", in.sid)
+	}
+
+	// ---- what candidates are told to solve (real getFlipsToSolve / Get*FlipsToSolve)
+	cidIdx := map[string]int{}
+	for f, cid := range sh.Flips {
+		cidIdx[string(cid)] = f
+	}
+	toIdx := func(cids [][]byte) []int {
+		out := make([]int, len(cids))
+		for i, c := range cids {
+			if v, ok := cidIdx[string(c)]; ok {
+				out[i] = v
+			} else {
+				out[i] = -1
+			}
+		}
+		return out
+	}
+	ts, tl := make([][]int, n), make([][]int, n)
+	solvePanic := false
+	for i := 0; i < n && !solvePanic; i++ {
+		i := i
+		p, what := c16protect(func() {
+			ts[i] = toIdx(x.f.ToSolve(sh.Candidates[i], common.ShardId(in.sid), false))
+			tl[i] = toIdx(x.f.ToSolve(sh.Candidates[i], common.ShardId(in.sid), true))
+		})
+		if p {
+			solvePanic = true
+			o.fail("C16:panic", "getFlipsToSolve panicked for candidate %d: %s", i, what)
+		}
+	}
+	if solvePanic {
+		o.line("solve", "panic")
+		return
+	}
+	o.line("solve", "ts "+c16LL(ts, "|")+" tl "+c16LL(tl, "|"))
+
+	// ---- oracle on the lists
+	if len(sh.Short) != n || len(sh.Long) != n {
+		o.fail("C16:list-count", "shard %d: %d candidates but %d short / %d long lists", in.sid, n, len(sh.Short), len(sh.Long))
+		return
+	}
+	for c := 0; c < n; c++ {
+		for si, lst := range [][]int{sh.Short[c], sh.Long[c]} {
+			sess := []string{"short", "long"}[si]
+			seen := map[int]bool{}
+			for _, f := range lst {
+				if total == 0 {
+					o.fail("C16:placeholder-on-empty-shard", "shard without flips: candidate %d gets %s list %v (candidates=%d, flips=[])", c, sess, lst, n)
+					break
 				}
-			}
-		}
-		if !layoutOK {
-			o.fail("C16:shard-layout", "shard %d: candidates/flips not laid out in identity order", in.sid)
-			continue
-		}
-		p1, p2, p3 := c16p1(cs.Seed, n, m, q), c16p2(cs.Seed, n, m), c16p3(cs.Seed, n)
-		opA := "authors " + c16LL(p1, ";") + " " + c16LL(p2, ";")
-		if b1.stage[s] == 1 {
-			o.line(opA, "panic")
-			o.fail("C16:panic", "GetAuthorsDistribution panicked: %s", b1.what)
-			continue
-		}
-		o.line(opA, "apc "+c16map(sh.Apc, n)+" cpa "+c16map(sh.Cpa, n))
-		opF := "flips " + c16flToken(p3)
-		if b1.stage[s] == 2 {
-			o.line(opF, "panic")
-			o.fail("C16:panic", "GetFlipsDistribution panicked: %s", b1.what)
-			continue
-		}
-		o.line(opF, "short "+c16LL(sh.Short, "|")+" long "+c16LL(sh.Long, "|"))
-
-		// ---- determinism
-		if s2 := b2.sh[s]; s2 == nil || b2.stage[s] != 0 || !reflect.DeepEqual(sh.Apc, s2.Apc) || !reflect.DeepEqual(sh.Cpa, s2.Cpa) ||
-			!reflect.DeepEqual(sh.Short, s2.Short) || !reflect.DeepEqual(sh.Long, s2.Long) {
-			o.fail("C16:nondeterministic", "two runs on the same candidates, flips and seed differ (shard %d)", in.sid)
-		}
-
-		// ---- what candidates are told to solve (real getFlipsToSolve / Get*FlipsToSolve)
-		cidIdx := map[string]int{}
-		for f, cid := range sh.Flips {
-			cidIdx[string(cid)] = f
-		}
-		toIdx := func(cids [][]byte) []int {
-			out := make([]int, len(cids))
-			for i, c := range cids {
-				if v, ok := cidIdx[string(c)]; ok {
-					out[i] = v
-				} else {
-					out[i] = -1
+				if f < 0 || f >= total {
+					o.fail("C16:flip-out-of-range", "candidate %d %s list %v: flip %d does not exist (%d flips)", c, sess, lst, f, total)
 				}
-			}
-			return out
-		}
-		ts, tl := make([][]int, n), make([][]int, n)
-		solvePanic := false
-		for i := 0; i < n && !solvePanic; i++ {
-			i := i
-			p, what := c16protect(func() {
-				ts[i] = toIdx(b1.f.ToSolve(sh.Candidates[i], common.ShardId(in.sid), false))
-				tl[i] = toIdx(b1.f.ToSolve(sh.Candidates[i], common.ShardId(in.sid), true))
-			})
-			if p {
-				solvePanic = true
-				o.fail("C16:panic", "getFlipsToSolve panicked for candidate %d: %s", i, what)
+				if seen[f] {
+					o.fail("C16:duplicate-flip", "candidate %d %s list %v lists flip %d twice", c, sess, lst, f)
+				}
+				seen[f] = true
 			}
 		}
-		if solvePanic {
-			o.line("solve", "panic")
-			continue
+		if len(sh.Short[c]) > q {
+			o.fail("C16:short-quota", "candidate %d short list %v exceeds the quota %d", c, sh.Short[c], q)
 		}
-		o.line("solve", "ts "+c16LL(ts, "|")+" tl "+c16LL(tl, "|"))
+		if total > 0 && len(sh.Long[c]) == 0 {
+			o.fail("C16:long-empty", "candidate %d has an empty long list although the shard has %d flips", c, total)
+		}
+		if total == 0 && (len(ts[c]) > 0 || len(tl[c]) > 0) {
+			o.fail("C16:solve-on-empty-shard", "shard without flips: candidate %d is told to solve %v / %v", c, ts[c], tl[c])
+		}
+		if total > 0 && (!reflect.DeepEqual(ts[c], append([]int{}, sh.Short[c]...)) || !reflect.DeepEqual(tl[c], append([]int{}, sh.Long[c]...))) {
+			o.fail("C16:solve-differs", "candidate %d is told to solve %v / %v but was assigned %v / %v", c, ts[c], tl[c], sh.Short[c], sh.Long[c])
+		}
+	}
+	// symmetry of the two maps
+	for c, as := range sh.Apc {
+		for _, a := range as {
+			if !c16contains(sh.Cpa[a], c) {
+				o.fail("C16:asymmetric", "author %d is in authorsPerCandidate[%d] but %d is not in candidatesPerAuthor[%d]=%v", a, c, c, a, sh.Cpa[a])
+			}
+		}
+	}
+	for a, cands := range sh.Cpa {
+		for _, c := range cands {
+			if !c16contains(sh.Apc[c], a) {
+				o.fail("C16:asymmetric", "candidate %d is in candidatesPerAuthor[%d] but %d is not in authorsPerCandidate[%d]=%v", c, a, a, c, sh.Apc[c])
+			}
+		}
+	}
 
-		// ---- oracle on the lists
-		if len(sh.Short) != n || len(sh.Long) != n {
-			o.fail("C16:list-count", "shard %d: %d candidates but %d short / %d long lists", in.sid, n, len(sh.Short), len(sh.Long))
-			continue
+	// ---- recipients: the real PrivateEncryptionKeyCandidates of every candidate
+	pubIdx := map[string]int{}
+	for i, g := range in.gidx {
+		pubIdx[hex.EncodeToString(fx.pub(g))] = i
+	}
+	rcp := make([][]int, n)   // recipients of author a (candidate indexes), nil = error
+	rcpErr := make([]bool, n) // PrivateEncryptionKeyCandidates returned an error
+	isRcp := make([]map[int]bool, n)
+	rcpPanic := false
+	for a := 0; a < n && !rcpPanic; a++ {
+		a := a
+		p, what := c16protect(func() {
+			pks, err := x.f.Recipients(sh.Candidates[a])
+			if err != nil {
+				rcpErr[a] = true
+				return
+			}
+			isRcp[a] = map[int]bool{}
+			for _, pk := range pks {
+				i, ok := pubIdx[hex.EncodeToString(pk)]
+				if !ok {
+					i = -1
+				}
+				rcp[a] = append(rcp[a], i)
+				isRcp[a][i] = true
+			}
+		})
+		if p {
+			rcpPanic = true
+			o.fail("C16:panic", "PrivateEncryptionKeyCandidates panicked for candidate %d: %s", a, what)
 		}
+	}
+	if rcpPanic {
+		return
+	}
+	// assigned <-> recipient, with the structural placeholder exemption
+	authorsOf := make([][]int, n) // authors that encrypt for c
+	for a := 0; a < n; a++ {
+		for c := range isRcp[a] {
+			if c >= 0 && c < n {
+				authorsOf[c] = append(authorsOf[c], a)
+			}
+		}
+	}
+	flipStart := make([]int, n+1)
+	for i, k := range in.fl {
+		flipStart[i+1] = flipStart[i] + k
+	}
+	if total > 0 {
 		for c := 0; c < n; c++ {
-			for si, lst := range [][]int{sh.Short[c], sh.Long[c]} {
-				sess := []string{"short", "long"}[si]
-				seen := map[int]bool{}
-				for _, f := range lst {
-					if total == 0 {
-						o.fail("C16:placeholder-on-empty-shard", "shard without flips: candidate %d gets %s list %v (candidates=%d, flips=[])", c, sess, lst, n)
-						break
-					}
-					if f < 0 || f >= total {
-						o.fail("C16:flip-out-of-range", "candidate %d %s list %v: flip %d does not exist (%d flips)", c, sess, lst, f, total)
-					}
-					if seen[f] {
-						o.fail("C16:duplicate-flip", "candidate %d %s list %v lists flip %d twice", c, sess, lst, f)
-					}
-					seen[f] = true
-				}
+			inShort := map[int]bool{}
+			for _, f := range sh.Short[c] {
+				inShort[f] = true
 			}
-			if len(sh.Short[c]) > q {
-				o.fail("C16:short-quota", "candidate %d short list %v exceeds the quota %d", c, sh.Short[c], q)
-			}
-			if total > 0 && len(sh.Long[c]) == 0 {
-				o.fail("C16:long-empty", "candidate %d has an empty long list although the shard has %d flips", c, total)
-			}
-			if total == 0 && (len(ts[c]) > 0 || len(tl[c]) > 0) {
-				o.fail("C16:solve-on-empty-shard", "shard without flips: candidate %d is told to solve %v / %v", c, ts[c], tl[c])
-			}
-			if total > 0 && (!reflect.DeepEqual(ts[c], append([]int{}, sh.Short[c]...)) || !reflect.DeepEqual(tl[c], append([]int{}, sh.Long[c]...))) {
-				o.fail("C16:solve-differs", "candidate %d is told to solve %v / %v but was assigned %v / %v", c, ts[c], tl[c], sh.Short[c], sh.Long[c])
-			}
-		}
-		// symmetry of the two maps
-		for c, as := range sh.Apc {
-			for _, a := range as {
-				if !c16contains(sh.Cpa[a], c) {
-					o.fail("C16:asymmetric", "author %d is in authorsPerCandidate[%d] but %d is not in candidatesPerAuthor[%d]=%v", a, c, c, a, sh.Cpa[a])
-				}
-			}
-		}
-		for a, cands := range sh.Cpa {
-			for _, c := range cands {
-				if !c16contains(sh.Apc[c], a) {
-					o.fail("C16:asymmetric", "candidate %d is in candidatesPerAuthor[%d] but %d is not in authorsPerCandidate[%d]=%v", c, a, a, c, sh.Apc[c])
-				}
-			}
-		}
-
-		// ---- recipients: the real PrivateEncryptionKeyCandidates of every candidate
-		pubIdx := map[string]int{}
-		for i, g := range in.gidx {
-			pubIdx[hex.EncodeToString(fx.pub(g))] = i
-		}
-		rcp := make([][]int, n)   // recipients of author a (candidate indexes), nil = error
-		rcpErr := make([]bool, n) // PrivateEncryptionKeyCandidates returned an error
-		isRcp := make([]map[int]bool, n)
-		rcpPanic := false
-		for a := 0; a < n && !rcpPanic; a++ {
-			a := a
-			p, what := c16protect(func() {
-				pks, err := b1.f.Recipients(sh.Candidates[a])
-				if err != nil {
-					rcpErr[a] = true
-					return
-				}
-				isRcp[a] = map[int]bool{}
-				for _, pk := range pks {
-					i, ok := pubIdx[hex.EncodeToString(pk)]
-					if !ok {
-						i = -1
-					}
-					rcp[a] = append(rcp[a], i)
-					isRcp[a][i] = true
-				}
-			})
-			if p {
-				rcpPanic = true
-				o.fail("C16:panic", "PrivateEncryptionKeyCandidates panicked for candidate %d: %s", a, what)
-			}
-		}
-		if rcpPanic {
-			continue
-		}
-		// assigned <-> recipient, with the structural placeholder exemption
-		authorsOf := make([][]int, n) // authors that encrypt for c
-		for a := 0; a < n; a++ {
-			for c := range isRcp[a] {
-				if c >= 0 && c < n {
-					authorsOf[c] = append(authorsOf[c], a)
-				}
-			}
-		}
-		flipStart := make([]int, n+1)
-		for i, k := range in.fl {
-			flipStart[i+1] = flipStart[i] + k
-		}
-		if total > 0 {
-			for c := 0; c < n; c++ {
-				inShort := map[int]bool{}
-				for _, f := range sh.Short[c] {
-					inShort[f] = true
-				}
-				placeholder := len(sh.Long[c]) == 1 && sh.Long[c][0] == 0
-				if placeholder {
-					for _, a := range authorsOf[c] {
-						for f := flipStart[a]; f < flipStart[a+1]; f++ {
-							if !inShort[f] {
-								placeholder = false
-							}
+			placeholder := len(sh.Long[c]) == 1 && sh.Long[c][0] == 0
+			if placeholder {
+				for _, a := range authorsOf[c] {
+					for f := flipStart[a]; f < flipStart[a+1]; f++ {
+						if !inShort[f] {
+							placeholder = false
 						}
 					}
 				}
-				if placeholder {
-					o.hit("placeholder")
+			}
+			if placeholder {
+				o.hit("placeholder")
+			}
+			assigned := map[int]bool{}
+			for si, lst := range [][]int{sh.Short[c], sh.Long[c]} {
+				if si == 1 && placeholder {
+					continue
 				}
-				assigned := map[int]bool{}
-				for si, lst := range [][]int{sh.Short[c], sh.Long[c]} {
-					if si == 1 && placeholder {
+				for _, f := range lst {
+					if f < 0 || f >= total {
 						continue
 					}
-					for _, f := range lst {
-						if f < 0 || f >= total {
-							continue
-						}
-						a := flipAuthor[f]
-						assigned[a] = true
-						if !isRcp[a][c] {
-							o.fail("C16:assigned-not-recipient", "candidate %d is assigned flip %d of author %d (session %d) but is not among the author's key recipients %v", c, f, a, si, rcp[a])
-						}
-					}
-				}
-				for _, a := range authorsOf[c] {
-					if !assigned[a] {
-						o.fail("C16:recipient-not-assigned", "author %d encrypts its key for candidate %d, which is assigned none of its flips (short %v long %v)", a, c, sh.Short[c], sh.Long[c])
+					a := flipAuthor[f]
+					assigned[a] = true
+					if !isRcp[a][c] {
+						o.fail("C16:assigned-not-recipient", "candidate %d is assigned flip %d of author %d (session %d) but is not among the author's key recipients %v", c, f, a, si, rcp[a])
 					}
 				}
 			}
+			for _, a := range authorsOf[c] {
+				if !assigned[a] {
+					o.fail("C16:recipient-not-assigned", "author %d encrypts its key for candidate %d, which is assigned none of its flips (short %v long %v)", a, c, sh.Short[c], sh.Long[c])
+				}
+			}
 		}
+	}
 
-		// ---- rcp lines (correspondence of the recipient lists)
-		var rcpWho []int
-		if n <= 24 {
-			for a := 0; a < n; a++ {
-				rcpWho = append(rcpWho, a)
-			}
-		} else {
-			for i := 0; i < 16; i++ {
-				rcpWho = append(rcpWho, krng.Intn(n))
-			}
-		}
-		for _, a := range rcpWho {
-			if rcpErr[a] {
-				o.line(fmt.Sprintf("rcp %d", a), "err")
-			} else {
-				o.line(fmt.Sprintf("rcp %d", a), c16L(rcp[a]))
-			}
-		}
-
-		// ---- key packages for sampled authors: real encryption, extraction, decryption
-		if !withKeys {
-			continue
-		}
-		var authors []int
+	// ---- rcp lines (correspondence of the recipient lists)
+	var rcpWho []int
+	if n <= 24 {
 		for a := 0; a < n; a++ {
-			if in.fl[a] > 0 && !rcpErr[a] && len(rcp[a]) <= 48 {
-				authors = append(authors, a)
-			}
+			rcpWho = append(rcpWho, a)
 		}
-		if m > 0 && len(authors) == 0 {
-			o.hit("key:skipped-large-package")
+	} else {
+		for i := 0; i < 16; i++ {
+			rcpWho = append(rcpWho, x.krng.Intn(n))
 		}
-		krng.Shuffle(len(authors), func(i, j int) { authors[i], authors[j] = authors[j], authors[i] })
+	}
+	for _, a := range rcpWho {
+		if rcpErr[a] {
+			o.line(fmt.Sprintf("rcp %d", a), "err")
+		} else {
+			o.line(fmt.Sprintf("rcp %d", a), c16L(rcp[a]))
+		}
+	}
+
+	// ---- key packages for sampled authors: real encryption, extraction, decryption
+	if !x.withKeys {
+		return
+	}
+	var authors []int
+	for a := 0; a < n; a++ {
+		if in.fl[a] > 0 && !rcpErr[a] && (len(rcp[a]) <= 48 || x.seq != nil) {
+			authors = append(authors, a)
+		}
+	}
+	if m > 0 && len(authors) == 0 {
+		o.hit("key:skipped-large-package")
+	}
+	if x.seq == nil { // a multi-epoch sequence publishes and fetches for EVERY author in every epoch
+		x.krng.Shuffle(len(authors), func(i, j int) { authors[i], authors[j] = authors[j], authors[i] })
 		if maxA := map[bool]int{true: 2, false: 1}[n <= 12]; len(authors) > maxA {
 			authors = authors[:maxA]
 		}
-		for _, a := range authors {
-			ga := in.gidx[a]
-			pubFK, privFK := fx.flipKeys(ga)
-			want := crypto.FromECDSA(privFK.ExportECDSA())
-			var pkg []byte
-			nEntries := 0
-			entryCache := map[int][]byte{}
-			entry := func(i int) []byte { // getEncryptedKeyFromPackage (opens the outer layer every time)
-				if e, ok := entryCache[i]; ok {
-					return e
-				}
-				e, err := mempool.VerifC16KeyFromPackage(pubFK, pkg, i)
-				if err != nil {
-					e = nil
-				}
-				entryCache[i] = e
+	}
+	unreachable := "C16:recipient-cannot-obtain-key"
+	if x.epoch > 0 {
+		unreachable = "C16:key-unreachable-after-epoch-change"
+	}
+	for _, a := range authors {
+		ga := in.gidx[a]
+		pubFK, privFK := fx.flipKeys(ga)
+		if x.seq != nil {
+			pubFK, privFK = fx.flipKeys(ga*16 + 7000 + x.epoch) // a fresh flip key pair every epoch
+		}
+		want := crypto.FromECDSA(privFK.ExportECDSA())
+		var pkg []byte
+		nEntries := 0
+		entryCache := map[int][]byte{}
+		entry := func(i int) []byte { // getEncryptedKeyFromPackage (opens the outer layer every time)
+			if e, ok := entryCache[i]; ok {
 				return e
 			}
-			if p, what := c16protect(func() {
-				pks, _ := b1.f.Recipients(sh.Candidates[a])
-				pkg = mempool.EncryptPrivateKeysPackage(pubFK, privFK, pks)
-				fx.keysPool.VerifC16Put(sh.Candidates[a], &types.PublicFlipKey{Key: crypto.FromECDSA(pubFK.ExportECDSA()), Epoch: 0},
-					&types.PrivateFlipKeysPackage{Data: pkg, Epoch: 0})
-				nEntries = len(pks)
-			}); p {
-				o.fail("C16:panic", "building the key package of author %d panicked: %s", a, what)
+			e, err := mempool.VerifC16KeyFromPackage(pubFK, pkg, i)
+			if err != nil {
+				e = nil
+			}
+			entryCache[i] = e
+			return e
+		}
+		if p, what := c16protect(func() {
+			pks, _ := x.f.Recipients(sh.Candidates[a])
+			pkg = mempool.EncryptPrivateKeysPackage(pubFK, privFK, pks)
+			nEntries = len(pks)
+			if x.seq != nil {
+				// what broadcastPublicFipKey / broadcastPrivateFlipKeysPackage do: signed messages through the pool's validation
+				if err := x.seq.publish(fx.key(ga), pubFK, pkg); err != nil {
+					o.fail("C16:key-message-refused", "epoch %d: the pool refuses the key messages of author %d: %v", x.epoch, a, err)
+				}
+				return
+			}
+			fx.keysPool.VerifC16Put(sh.Candidates[a], &types.PublicFlipKey{Key: crypto.FromECDSA(pubFK.ExportECDSA()), Epoch: 0},
+				&types.PrivateFlipKeysPackage{Data: pkg, Epoch: 0})
+		}); p {
+			o.fail("C16:panic", "building the key package of author %d panicked: %s", a, what)
+			continue
+		}
+		var who []int
+		if n <= 8 || x.seq != nil {
+			for c := 0; c < n; c++ {
+				who = append(who, c)
+			}
+		} else {
+			if len(rcp[a]) > 0 {
+				who = append(who, rcp[a][x.krng.Intn(len(rcp[a]))], rcp[a][x.krng.Intn(len(rcp[a]))])
+			}
+			who = append(who, a)
+			for i := 0; i < 3; i++ {
+				who = append(who, x.krng.Intn(n))
+			}
+		}
+		for _, c := range who {
+			if c < 0 || c >= n {
 				continue
 			}
-			var who []int
-			if n <= 8 {
-				for c := 0; c < n; c++ {
-					who = append(who, c)
+			kc := ecies.ImportECDSA(fx.key(in.gidx[c]))
+			idx, got := -2, false
+			var encKey []byte
+			if p, what := c16protect(func() {
+				idx = x.f.PackageIndex(sh.Candidates[c], sh.Candidates[a])
+				pubKey, ek, err := x.f.FlipKeys(sh.Candidates[c], c16cid(ga, 8*x.cidEpoch))
+				if err == nil {
+					encKey = ek
+					if !bytes.Equal(pubKey, crypto.FromECDSA(pubFK.ExportECDSA())) {
+						o.fail("C16:wrong-public-flip-key", "GetFlipKeys(candidate %d, flip of author %d) returned another public flip key", c, a)
+					}
+					if dec, err := kc.Decrypt(ek, nil, nil); err == nil && bytes.Equal(dec, want) {
+						got = true
+					}
+				}
+			}); p {
+				o.line(fmt.Sprintf("key %d %d", c, a), "panic")
+				o.fail("C16:panic", "GetFlipKeys / getPrivateKeyPackageIndex panicked for candidate %d, author %d: %s", c, a, what)
+				continue
+			}
+			ans := fmt.Sprintf("idx=%d ", idx)
+			if got {
+				ans += "ok"
+			} else {
+				ans += "no"
+			}
+			o.line(fmt.Sprintf("key %d %d", c, a), ans)
+			o.hit(map[bool]string{true: "key:recipient", false: "key:non-recipient"}[isRcp[a][c]])
+			// oracle
+			if isRcp[a][c] {
+				if !got {
+					o.fail(unreachable, "epoch %d: candidate %d is a key recipient of author %d (recipients %v) but cannot extract and decrypt the author's current key (index %d, got %d bytes)", x.epoch, c, a, rcp[a], idx, len(encKey))
+				}
+				if idx < 0 || idx >= len(rcp[a]) || rcp[a][idx] != c {
+					o.fail("C16:wrong-package-index", "package index %d of candidate %d in author %d's recipients %v", idx, c, a, rcp[a])
+				} else if !bytes.Equal(entry(idx), encKey) {
+					o.fail("C16:extraction-differs", "getEncryptedKeyFromPackage(index %d) and GetFlipKeys disagree for candidate %d, author %d", idx, c, a)
 				}
 			} else {
-				if len(rcp[a]) > 0 {
-					who = append(who, rcp[a][krng.Intn(len(rcp[a]))], rcp[a][krng.Intn(len(rcp[a]))])
+				if got || idx != -1 {
+					o.fail("C16:non-recipient-obtains-key", "candidate %d is not a key recipient of author %d (recipients %v) but index=%d, decrypted=%v", c, a, rcp[a], idx, got)
 				}
-				who = append(who, a)
-				for i := 0; i < 3; i++ {
-					who = append(who, krng.Intn(n))
-				}
-			}
-			for _, c := range who {
-				if c < 0 || c >= n {
-					continue
-				}
-				kc := ecies.ImportECDSA(fx.key(in.gidx[c]))
-				idx, got := -2, false
-				var encKey []byte
-				if p, what := c16protect(func() {
-					idx = b1.f.PackageIndex(sh.Candidates[c], sh.Candidates[a])
-					pubKey, ek, err := b1.f.FlipKeys(sh.Candidates[c], c16cid(ga, 0))
-					if err == nil {
-						encKey = ek
-						if !bytes.Equal(pubKey, crypto.FromECDSA(pubFK.ExportECDSA())) {
-							o.fail("C16:wrong-public-flip-key", "GetFlipKeys(candidate %d, flip of author %d) returned another public flip key", c, a)
-						}
-						if dec, err := kc.Decrypt(ek, nil, nil); err == nil && bytes.Equal(dec, want) {
-							got = true
-						}
+				for t := 0; t < nEntries && t < 6; t++ {
+					i := t
+					if nEntries > 6 {
+						i = x.orng.Intn(nEntries)
 					}
-				}); p {
-					o.line(fmt.Sprintf("key %d %d", c, a), "panic")
-					o.fail("C16:panic", "GetFlipKeys / getPrivateKeyPackageIndex panicked for candidate %d, author %d: %s", c, a, what)
-					continue
-				}
-				ans := fmt.Sprintf("idx=%d ", idx)
-				if got {
-					ans += "ok"
-				} else {
-					ans += "no"
-				}
-				o.line(fmt.Sprintf("key %d %d", c, a), ans)
-				o.hit(map[bool]string{true: "key:recipient", false: "key:non-recipient"}[isRcp[a][c]])
-				// oracle
-				if isRcp[a][c] {
-					if !got {
-						o.fail("C16:recipient-cannot-obtain-key", "candidate %d is a key recipient of author %d (recipients %v) but cannot extract and decrypt the key (index %d)", c, a, rcp[a], idx)
-					}
-					if idx < 0 || idx >= len(rcp[a]) || rcp[a][idx] != c {
-						o.fail("C16:wrong-package-index", "package index %d of candidate %d in author %d's recipients %v", idx, c, a, rcp[a])
-					} else if !bytes.Equal(entry(idx), encKey) {
-						o.fail("C16:extraction-differs", "getEncryptedKeyFromPackage(index %d) and GetFlipKeys disagree for candidate %d, author %d", idx, c, a)
-					}
-				} else {
-					if got || idx != -1 {
-						o.fail("C16:non-recipient-obtains-key", "candidate %d is not a key recipient of author %d (recipients %v) but index=%d, decrypted=%v", c, a, rcp[a], idx, got)
-					}
-					for t := 0; t < nEntries && t < 6; t++ {
-						i := t
-						if nEntries > 6 {
-							i = orng.Intn(nEntries)
-						}
-						if dec, err := kc.Decrypt(entry(i), nil, nil); err == nil && bytes.Equal(dec, want) {
-							o.fail("C16:non-recipient-obtains-key", "candidate %d is not a key recipient of author %d but decrypts package entry %d", c, a, i)
-						}
+					if dec, err := kc.Decrypt(entry(i), nil, nil); err == nil && bytes.Equal(dec, want) {
+						o.fail("C16:non-recipient-obtains-key", "candidate %d is not a key recipient of author %d but decrypts package entry %d", c, a, i)
 					}
 				}
 			}
+		}
+	}
+	if x.seq != nil {
+		// a node restarted now (new KeysPool over the same db, Initialize loads this epoch's messages) must serve the same
+		maxIdx := 2
+		for _, a := range authors {
+			if len(rcp[a])+2 > maxIdx {
+				maxIdx = len(rcp[a]) + 2
+			}
+		}
+		var addrs []common.Address
+		for _, a := range authors {
+			addrs = append(addrs, sh.Candidates[a])
+		}
+		if p, what := c16protect(func() {
+			if i, a, live, fresh := x.seq.compareWithRestart(addrs, maxIdx); i >= 0 {
+				o.fail("C16:stale-key-served", "epoch %d: the running pool serves %d bytes for entry %d of author %d's package, a restarted node %d bytes (recipients %v)",
+					x.epoch, live, i, authors[a], fresh, rcp[authors[a]])
+			}
+		}); p {
+			o.fail("C16:panic", "restarted pool panicked: %s", what)
+		}
+	}
+}
+
+
+// ---------------------------------------------------------------- several epochs on one running node
+
+// c16world: one node's long-lived objects: state, KeysPool, Flipper, ValidationCeremony over one db.
+type c16world struct {
+	db       dbm.DB
+	bus      eventbus.Bus
+	appState *appstate.AppState
+	pool     *mempool.KeysPool
+	f        *ceremony.VerifC16Ceremony
+	head     *types.Header
+	height   uint64
+}
+
+func (w *c16world) commit() error {
+	w.height++
+	w.appState.Precommit()
+	if err := w.appState.CommitAt(w.height); err != nil {
+		return err
+	}
+	if err := w.appState.Initialize(w.height); err != nil {
+		return err
+	}
+	w.head = &types.Header{ProposedHeader: &types.ProposedHeader{Height: w.height, Time: 1}}
+	return nil
+}
+
+// publish: the author's signed public flip key and private keys package go through the pool's real validation
+func (w *c16world) publish(author *ecdsa.PrivateKey, pubFK *ecies.PrivateKey, pkg []byte) error {
+	epoch := w.appState.State.Epoch()
+	p, err := types.SignFlipKeysPackage(&types.PrivateFlipKeysPackage{Data: pkg, Epoch: epoch}, author)
+	if err != nil {
+		return err
+	}
+	if err := w.pool.AddPrivateKeysPackage(p, false); err != nil {
+		return err
+	}
+	k, err := types.SignFlipKey(&types.PublicFlipKey{Key: crypto.FromECDSA(pubFK.ExportECDSA()), Epoch: epoch}, author)
+	if err != nil {
+		return err
+	}
+	return w.pool.AddPublicFlipKey(k, false)
+}
+
+// compareWithRestart: a KeysPool constructed now over the same db (what a restarted node has: Initialize re-reads the
+// current epoch's messages) against the running one, entry by entry.  Returns the first difference (entry, author position).
+func (w *c16world) compareWithRestart(authors []common.Address, maxIdx int) (int, int, int, int) {
+	fresh := mempool.NewKeysPool(w.db, w.appState, eventbus.New(), c16getFixture().ss)
+	fresh.VerifC16QuietTracker()
+	fresh.Initialize(w.head)
+	for a, addr := range authors {
+		for i := 0; i < maxIdx; i++ {
+			x, y := w.pool.GetEncryptedPrivateFlipKey(i, addr), fresh.GetEncryptedPrivateFlipKey(i, addr)
+			if !bytes.Equal(x, y) {
+				return i, a, len(x), len(y)
+			}
+		}
+	}
+	return -1, -1, 0, 0
+}
+
+func c16newWorld() (*c16world, error) {
+	fx := c16getFixture()
+	w := &c16world{db: dbm.NewMemDB(), bus: eventbus.New()}
+	as, err := appstate.NewAppState(w.db, w.bus)
+	if err != nil {
+		return nil, err
+	}
+	if err := as.Initialize(0); err != nil {
+		return nil, err
+	}
+	w.appState = as
+	w.pool = mempool.NewKeysPool(w.db, as, w.bus, fx.ss)
+	w.pool.VerifC16QuietTracker()
+	return w, nil
+}
+
+// c16runSeq: consecutive ceremonies on one node.  Per epoch: the state gets the epoch's flips and (from the second
+// epoch on) the next epoch number, a block event moves the pool's head, the real completeEpoch runs (KeysPool.Clear,
+// Flipper.Clear, new epoch db), the real lottery runs from the epoch db, EVERY author publishes signed key messages
+// through the pool's validation, EVERY (candidate, author) pair fetches through GetFlipKeys and decrypts.
+func c16runSeq(cs c16case, withKeys bool) *c16out {
+	fx := c16getFixture()
+	o := &c16out{}
+	w, err := c16newWorld()
+	if err != nil {
+		o.fail("C16:fixture", "world: %v", err)
+		return o
+	}
+	flipper := flip.NewFlipper(w.db, ipfs.NewMemoryIpfsProxy(), w.pool, nil, fx.ss, w.appState, w.bus)
+	krng := rand.New(rand.NewSource(cs.KSeed))
+	orng := rand.New(rand.NewSource(cs.KSeed + 1))
+	var prev []c16pid
+	for e, ep := range cs.Epochs {
+		st := w.appState.State
+		if e > 0 {
+			st.IncEpoch()
+			for _, id := range prev {
+				st.ClearFlips(fx.addr(id.G))
+			}
+		}
+		var ids []database.DbLotteryIdentity
+		in := c16shardIn{sid: 1}
+		for _, id := range ep.Ids {
+			li := database.DbLotteryIdentity{Address: fx.addr(id.G), ShiftedShardId: 1, PubKey: fx.pub(id.G), State: uint8(state.Verified), HasDoneAllRequiredFlips: true}
+			for j := 0; j < id.F; j++ {
+				cid := c16cid(id.G, j+8*e)
+				li.FlipCids = append(li.FlipCids, cid)
+				st.AddFlip(li.Address, cid, 0)
+			}
+			ids = append(ids, li)
+			in.gidx = append(in.gidx, id.G)
+			in.fl = append(in.fl, id.F)
+		}
+		prev = ep.Ids
+		if err := w.commit(); err != nil {
+			o.fail("C16:fixture", "commit: %v", err)
+			return o
+		}
+		var sh *ceremony.VerifC16Shard
+		stage := 0
+		p, what := c16protect(func() {
+			if e == 0 {
+				w.pool.Initialize(w.head)
+				w.f = ceremony.VerifC16NewLiveCeremony(w.appState, w.db, fx.cfg, fx.ss, w.pool, flipper)
+			} else {
+				w.bus.Publish(&events.NewBlockEvent{Block: &types.Block{Header: w.head, Body: &types.Body{}}}) // the pool follows the head
+				w.f.CompleteEpoch()
+			}
+			w.f.StartLottery(ids, c16seedBytes(ep.Seed))
+			if w.f.Finished() {
+				sh = w.f.Shard(1)
+			}
+		})
+		if p || sh == nil {
+			stage = 1
+		}
+		c16shard(o, &c16shardCtx{in: in, q: c16prodQ, seed: ep.Seed, sh: sh, sh2: sh, stage: stage, what: what, f: w.f,
+			krng: krng, orng: orng, withKeys: withKeys, epoch: e, seq: w, cidEpoch: e})
+		if stage != 0 {
+			return o
 		}
 	}
 	return o
@@ -791,11 +1019,64 @@ func c16hasSig(o *c16out, sig string) bool {
 	return false
 }
 
+// c16shrinkSeq: drop whole epochs, then participants of single epochs, then flips
+func c16shrinkSeq(cs c16case, fails func(c16case) bool) c16case {
+	clone := func(c c16case) c16case {
+		t := c
+		t.Epochs = make([]c16epoch, len(c.Epochs))
+		for i, e := range c.Epochs {
+			t.Epochs[i] = c16epoch{Seed: e.Seed, Ids: append([]c16pid{}, e.Ids...)}
+		}
+		return t
+	}
+	budget := 200
+	for changed := true; changed && budget > 0; {
+		changed = false
+		for i := 0; i < len(cs.Epochs) && len(cs.Epochs) > 1 && budget > 0; i++ {
+			t := clone(cs)
+			t.Epochs = append(t.Epochs[:i], t.Epochs[i+1:]...)
+			budget--
+			if fails(t) {
+				cs, changed = t, true
+				i--
+			}
+		}
+		for e := range cs.Epochs {
+			for i := 0; i < len(cs.Epochs[e].Ids) && budget > 0; i++ {
+				t := clone(cs)
+				t.Epochs[e].Ids = append(t.Epochs[e].Ids[:i], t.Epochs[e].Ids[i+1:]...)
+				budget--
+				if fails(t) {
+					cs, changed = t, true
+					i--
+				}
+			}
+			for i := range cs.Epochs[e].Ids {
+				for cs.Epochs[e].Ids[i].F > 1 && budget > 0 {
+					t := clone(cs)
+					t.Epochs[e].Ids[i].F--
+					budget--
+					if fails(t) {
+						cs, changed = t, true
+					} else {
+						break
+					}
+				}
+			}
+		}
+	}
+	return cs
+}
+
 func c16shrink(cs c16case, sig string) c16case {
 	keySig := map[string]bool{"C16:recipient-cannot-obtain-key": true, "C16:non-recipient-obtains-key": true, "C16:wrong-package-index": true,
-		"C16:extraction-differs": true, "C16:wrong-public-flip-key": true, "C16:panic": true}[sig]
+		"C16:extraction-differs": true, "C16:wrong-public-flip-key": true, "C16:panic": true,
+		"C16:key-unreachable-after-epoch-change": true, "C16:stale-key-served": true, "C16:key-message-refused": true}[sig]
 	fails := func(c c16case) bool { return c16hasSig(c16runK(c, keySig), sig) }
 	budget := 300
+	if cs.Level == "seq" {
+		return c16shrinkSeq(cs, fails)
+	}
 	for changed := true; changed && budget > 0; {
 		changed = false
 		// drop halves, then single identities
@@ -842,8 +1123,39 @@ func c16shrink(cs c16case, sig string) c16case {
 
 // ---------------------------------------------------------------- generator
 
+// c16genSeq: 2-3 consecutive ceremonies among a small population; some identities author in every epoch; every epoch
+// has its own participants, order (hence candidate indexes and package positions), flip counts and seed
+func c16genSeq(c *hx.Ctx) c16case {
+	r := c.Rng
+	cs := c16case{Level: "seq", Q: c16prodQ, KSeed: r.Int63()}
+	pop := 3 + r.Intn(8)
+	persistent := map[int]bool{}
+	for k := 1 + r.Intn(3); k > 0; k-- {
+		persistent[r.Intn(pop)] = true
+	}
+	pAuthor := []float64{0.1, 0.3, 0.6, 1}[r.Intn(4)]
+	for e, n := 0, 2+r.Intn(2); e < n; e++ {
+		ep := c16epoch{Seed: r.Uint64()}
+		for _, g := range r.Perm(pop) {
+			if !persistent[g] && r.Intn(4) == 0 {
+				continue // sits this ceremony out
+			}
+			id := c16pid{G: g}
+			if persistent[g] || r.Float64() < pAuthor {
+				id.F = 1 + r.Intn(3)
+			}
+			ep.Ids = append(ep.Ids, id)
+		}
+		cs.Epochs = append(cs.Epochs, ep)
+	}
+	return cs
+}
+
 func c16gen(c *hx.Ctx) c16case {
 	r := c.Rng
+	if r.Intn(12) == 0 {
+		return c16genSeq(c)
+	}
 	cs := c16case{Level: "fn", Q: c16prodQ, Seed: r.Uint64(), KSeed: r.Int63()}
 	switch r.Intn(40) {
 	case 0:
@@ -984,6 +1296,32 @@ func c16emit(c *hx.Ctx, cs c16case) {
 		c.Fail(f.sig, detail, small)
 	}
 	// distribution
+	if cs.Level == "seq" {
+		c.Hit("level:seq")
+		c.Hit("seq:epochs=" + strconv.Itoa(len(cs.Epochs)))
+		returning := 0 // authors of an epoch that authored in the previous one as well
+		for e := 1; e < len(cs.Epochs); e++ {
+			was := map[int]bool{}
+			for _, id := range cs.Epochs[e-1].Ids {
+				if id.F > 0 {
+					was[id.G] = true
+				}
+			}
+			for _, id := range cs.Epochs[e].Ids {
+				if id.F > 0 && was[id.G] {
+					returning++
+				}
+			}
+		}
+		if returning > 0 {
+			c.Hit("seq:returning-author")
+		}
+		key, _ := json.Marshal(cs.Epochs)
+		if c.Distinct("seq" + string(key)) {
+			c.Rep.Distinct++
+		}
+		return
+	}
 	n, m, tot := 0, 0, 0
 	for _, id := range cs.Ids {
 		if !id.Non {
